@@ -312,6 +312,33 @@ def config_tables():
     return layers, upd, comp_layer
 
 
+# --------------------------------------------------------------------------- component manager order
+
+def component_order_tables():
+    """`setup_components` sets up `self._managers + self._components` (in that order); `SimulationContext.__init__`
+    calls `add_managers` before `add_components`."""
+    cm = _parse("framework/components/manager.py")
+    mgr = _cls(cm, "ComponentManager")
+    sc = _fn(mgr, "setup_components")
+    order = None
+    for n in ast.walk(sc):
+        if isinstance(n, ast.Call) and _attr_name(n.func) == "_setup_components":
+            for a in n.args:
+                if isinstance(a, ast.BinOp) and isinstance(a.op, ast.Add):
+                    order = [_attr_name(a.left) or ast.unparse(a.left), _attr_name(a.right) or ast.unparse(a.right)]
+    if order is None:
+        raise TranslationError("ComponentManager.setup_components: `_setup_components(builder, A + B)` not found")
+    eng = _parse("framework/engine.py")
+    init = _fn(_cls(eng, "SimulationContext"), "__init__")
+    pos = {}
+    for n in ast.walk(init):
+        if isinstance(n, ast.Call) and _attr_name(n.func) in ("add_managers", "add_components"):
+            pos.setdefault(_attr_name(n.func), (n.lineno, n.col_offset))
+    if "add_managers" not in pos or "add_components" not in pos:
+        raise TranslationError("SimulationContext.__init__: add_managers / add_components calls not found")
+    return order, pos["add_managers"] < pos["add_components"]
+
+
 # --------------------------------------------------------------------------- resource types
 
 def resource_tables():
@@ -391,6 +418,7 @@ def render_tables() -> str:
     layers, upd, comp_layer = config_tables()
     ru_cmp, ts_forwards, step_guarded = interactive_tables()
     res_types, null_type = resource_tables()
+    setup_operands, managers_first = component_order_tables()
     o = []
     o.append("/-! GENERATED by vcheck/translate.py from the working tree of the repository under test.")
     o.append("    Never edited by hand; rewritten (when changed) by every run of `./check`. -/")
@@ -446,6 +474,10 @@ def render_tables() -> str:
     o.append("]")
     o.append("/-- layer written by `ComponentManager.apply_configuration_defaults` -/")
     o.append('def componentDefaultsLayer : String := "%s"\n' % comp_layer)
+    o.append("/-- operands of `self._setup_components(builder, A + B)` in `ComponentManager.setup_components`, in order -/")
+    o.append("def setupComponentsOperands : List String := %s" % _lstr(setup_operands))
+    o.append("/-- `SimulationContext.__init__` calls `add_managers` before `add_components` -/")
+    o.append("def managersAddedBeforeComponents : Bool := %s\n" % ("true" if managers_first else "false"))
     o.append("/-- `RESOURCE_TYPES` (a set; rendered sorted) and `NULL_RESOURCE_TYPE` of framework/resource.py -/")
     o.append("def resourceTypes : List String := %s" % _lstr(res_types))
     o.append('def nullResourceType : String := "%s"\n' % null_type)
